@@ -239,3 +239,6 @@ def run(ck):
                            "%s called outside a Drop impl: mapped file content could change or vanish during the run" % p, fn.where(t),
                            ok_detail="only in Drop")
     ck.floor("C15-R5", "mmap call sites", nmmap, 1)
+    # the unlink that precedes re-creating a file may only be passed over when there was nothing to unlink (shared with C18-R6)
+    from .c18 import r6_only_notfound_tolerated
+    r6_only_notfound_tolerated(ck, rule="C15-R6")
